@@ -95,6 +95,8 @@ def atoms(expr, include_calls=True):
             if d:
                 out.add("call:" + d)
                 out.add("call:" + d.split(".")[-1])
+            elif isinstance(n.func, ast.Attribute):
+                out.add("call:" + n.func.attr)
     return out
 
 
@@ -193,3 +195,109 @@ def calls_in(node, enter_nested=False):
                 continue
             stack.append(c)
     return out
+
+
+# ---------------------------------------------------------------------------- reaching definitions
+class Reaching:
+    """Flow-sensitive reaching definitions of local names over a CFG (may analysis).
+
+    A definition is (name, value expr or None, binding statement, how).  `at(node)` gives the
+    definitions that may reach the *entry* of a CFG node."""
+
+    def __init__(self, cfg, kinds="nrx"):
+        self.cfg = cfg
+        self.gen = {}
+        self.kill_names = {}
+        for n in cfg.nodes:
+            g = []
+            if n.kind == "stmt":
+                g = list(_node_defs(n.stmt))
+            elif n.kind == "handler" and n.owner is not None and getattr(n.owner, "name", None):
+                g = [(n.owner.name, n.owner.type, n.owner, "except")]
+            self.gen[n] = g
+            self.kill_names[n] = {d[0] for d in g if d[3] not in ("aug", "iter-unpack", "assign-unpack")}
+        params = []
+        a = cfg.fnode.args
+        for x in a.posonlyargs + a.args + a.kwonlyargs:
+            params.append(x.arg)
+        if a.vararg:
+            params.append(a.vararg.arg)
+        if a.kwarg:
+            params.append(a.kwarg.arg)
+        self.params = params
+        self.IN = {n: set() for n in cfg.nodes}
+        out = {n: set() for n in cfg.nodes}
+        out[cfg.entry] = {(p, None, None, "param") for p in params}
+        work = list(cfg.nodes)
+        while work:
+            n = work.pop()
+            inn = set()
+            for p, k in cfg.pred[n]:
+                if k in kinds:
+                    inn |= out[p]
+            self.IN[n] = inn
+            if n is cfg.entry:
+                new = out[n]
+            else:
+                kills = self.kill_names[n]
+                new = {d for d in inn if d[0] not in kills} | set(self.gen[n])
+            if new != out[n]:
+                out[n] = new
+                for m, k in cfg.succ[n]:
+                    if k in kinds and m not in work:
+                        work.append(m)
+        self.OUT = out
+
+    def defs_of(self, node, name):
+        return [d for d in self.IN[node] if d[0] == name]
+
+    def provenance(self, node, expr, depth=6):
+        """Atoms expr may depend on at `node`, following the definitions that reach it."""
+        out = set()
+        seen = set()
+
+        def rec(e, at, d):
+            out.update(atoms(e))
+            if d <= 0:
+                return
+            for x in ast.walk(e):
+                if isinstance(x, ast.Name):
+                    for df in self.defs_of(at, x.id):
+                        key = (id(df[2]), x.id)
+                        if key in seen or df[1] is None:
+                            continue
+                        seen.add(key)
+                        val = df[1].value if df[3] == "aug" else df[1]
+                        src_nodes = self.cfg.nodes_of(df[2]) if isinstance(df[2], ast.stmt) else []
+                        rec(val, src_nodes[0] if src_nodes else at, d - 1)
+
+        rec(expr, node, depth)
+        return out
+
+
+def _node_defs(stmt):
+    """Definitions generated by the CFG node of `stmt` itself (header only for compound ones)."""
+    d = Defs.__new__(Defs)
+    d.defs = {}
+    d.params = []
+    if isinstance(stmt, (ast.If, ast.While)):
+        for x in ast.walk(stmt.test):
+            if isinstance(x, ast.NamedExpr):
+                d._collect(x)
+    elif isinstance(stmt, (ast.For, ast.AsyncFor)):
+        d._bind(stmt.target, stmt.iter, stmt, "iter")
+    elif isinstance(stmt, (ast.With, ast.AsyncWith)):
+        for it in stmt.items:
+            if it.optional_vars is not None:
+                d._bind(it.optional_vars, it.context_expr, stmt, "with")
+    elif isinstance(stmt, (ast.FunctionDef, ast.AsyncFunctionDef, ast.ClassDef)):
+        d.defs[stmt.name] = [(None, stmt, "def")]
+    elif isinstance(stmt, ast.Try):
+        pass
+    else:
+        for x in _walk_stmt(stmt):
+            if isinstance(x, (ast.Assign, ast.AnnAssign, ast.AugAssign, ast.NamedExpr)):
+                d._collect(x)
+    for name, lst in d.defs.items():
+        for val, st, how in lst:
+            yield (name, val, st, how)
